@@ -341,7 +341,10 @@ class Ref:
         if n[0] != 'm':
             return False
         for name, T, req in self.params(C):
-            for nm in (name, name.replace('_', '-')):                         # K7
+            # K7: a key stands for the parameter it equals after its dashes are replaced by underscores
+            cands = [name, name.replace('_', '-')] + [a[2] for a, b in n[2] if a[0] == 's' and isinstance(a[2], str)
+                                                      and a[2].replace('-', '_') == name]
+            for nm in cands:
                 vs = [b for a, b in n[2] if a[2] == nm]
                 if vs:
                     if len(vs) > 1:
